@@ -42,20 +42,41 @@ fn sym_b(k: usize) -> Op {
 }
 const NB: usize = 8;
 
+/// variant C: control messages that carry an acknowledgement and a modification at once
+fn sym_c(k: usize) -> Op {
+    match k {
+        0 => Op::Publish { t: T0, n: 1, payload: Payload::plain(), a: false },
+        1 => Op::StreamSend { k: 0, acks: vec![AckRef::Recent(0)], mods: vec![(AckRef::Recent(0), 0)] },
+        2 => Op::StreamSend { k: 0, acks: vec![AckRef::Recent(0)], mods: vec![(AckRef::Recent(0), 20)] },
+        3 => Op::StreamSend { k: 0, acks: vec![AckRef::Own(0)], mods: vec![(AckRef::Recent(0), 0)] },
+        4 => Op::StreamSend { k: 0, acks: vec![], mods: vec![(AckRef::Recent(0), 0)] },
+        _ => Op::Advance { ms: 10_200 },
+    }
+}
+const NC: usize = 6;
+
 fn build(variant: u8, mut idx: u64, len: usize) -> Case {
-    let n = if variant == 0 { NA } else { NB } as u64;
+    let n = match variant {
+        0 => NA,
+        1 => NB,
+        _ => NC,
+    } as u64;
     let mut ops = vec![
         Op::CreateTopic { t: T0, a: false },
         Op::CreateSub { s: S0, t: T0, dl: 10, push: 0, a: false },
         Op::CreateSub { s: S { p: 0, i: 1 }, t: T0, dl: 10, push: 0, a: false },
     ];
-    if variant == 1 {
-        ops.push(Op::StreamOpen { s: S0, max_out: 1 });
+    if variant >= 1 {
+        ops.push(Op::StreamOpen { s: S0, max_out: if variant == 1 { 1 } else { 2 } });
     }
     for _ in 0..len {
         let k = (idx % n) as usize;
         idx /= n;
-        ops.push(if variant == 0 { sym_a(k) } else { sym_b(k) });
+        ops.push(match variant {
+            0 => sym_a(k),
+            1 => sym_b(k),
+            _ => sym_c(k),
+        });
     }
     Case { sched_seed: 1, phase_us: 37_000, fanout_seed: 0, points: vec![], ops }
 }
@@ -73,7 +94,7 @@ pub fn c02_enumeration(ctx: &WorkerCtx, out: &mut WorkerOut) {
     let mut global = 0u64;
     let mut evals = 0u64;
     let mut nontrivial = 0u64;
-    for (variant, maxlen, n) in [(0u8, la, NA as u64), (1u8, lb, NB as u64)] {
+    for (variant, maxlen, n) in [(0u8, la, NA as u64), (1u8, lb, NB as u64), (2u8, lb, NC as u64)] {
         for len in 1..=maxlen {
             let total = n.pow(len as u32);
             for idx in 0..total {
